@@ -20,6 +20,12 @@ type guardInfo struct {
 	via    *ssa.Call       // call to helper containing the guard (nil if inline)
 }
 
+// isIntParam: p has an integer type (it stands for the length of the input, not for the input).
+func isIntParam(p *ssa.Parameter) bool {
+	b, ok := p.Type().Underlying().(*types.Basic)
+	return ok && b.Info()&types.IsInteger != 0
+}
+
 func isLenOf(v ssa.Value) (ssa.Value, bool) {
 	v = stripConv(v)
 	call, ok := v.(*ssa.Call)
@@ -109,6 +115,51 @@ func rootParam(v ssa.Value) *ssa.Parameter {
 	return nil
 }
 
+// limitPredicateCall: cond is a call p(…, n, …) of a module function with a single bool result that answers
+// `n > MaxInputLength` (behind its "limit is on" conjunct): returns the callee's comparison, the argument standing
+// for n, and the limit variable. The predicate answers true for over-long input.
+func (c *Ctx) limitPredicateCall(cond ssa.Value) (cmp *ssa.BinOp, n ssa.Value, g *ssa.Global, ok bool) {
+	call, isCall := cond.(*ssa.Call)
+	if !isCall {
+		return nil, nil, nil, false
+	}
+	callee := c.StaticCallee(&call.Call)
+	if callee == nil || !inRepo(callee) || len(callee.Blocks) == 0 {
+		return nil, nil, nil, false
+	}
+	callee = origin(callee)
+	res := callee.Signature.Results()
+	if res.Len() != 1 {
+		return nil, nil, nil, false
+	}
+	if bt, isB := res.At(0).Type().Underlying().(*types.Basic); !isB || bt.Kind() != types.Bool {
+		return nil, nil, nil, false
+	}
+	for _, b := range callee.Blocks {
+		ret, isRet := b.Instrs[len(b.Instrs)-1].(*ssa.Return)
+		if !isRet {
+			continue
+		}
+		if cmp != nil {
+			return nil, nil, nil, false // one return only
+		}
+		k := condCmp(ret.Results[0])
+		if k == nil || k.Op != token.GTR || globalLoad(k.Y) == nil {
+			return nil, nil, nil, false
+		}
+		prm, isP := k.X.(*ssa.Parameter)
+		if !isP {
+			return nil, nil, nil, false
+		}
+		for i, q := range callee.Params {
+			if q == prm && i < len(call.Call.Args) {
+				cmp, n, g = k, call.Call.Args[i], globalLoad(k.Y)
+			}
+		}
+	}
+	return cmp, n, g, cmp != nil
+}
+
 func (c *Ctx) findGuard(fn *ssa.Function, input *ssa.Parameter) *guardInfo {
 	for _, b := range fn.Blocks {
 		iff, ok := b.Instrs[len(b.Instrs)-1].(*ssa.If)
@@ -117,6 +168,12 @@ func (c *Ctx) findGuard(fn *ssa.Function, input *ssa.Parameter) *guardInfo {
 		}
 		cmp := condCmp(iff.Cond)
 		if cmp == nil {
+			// the comparison moved into a predicate of the module: `if exceedsLimit(len(input)) { … }`
+			if pc, n, pg, ok := c.limitPredicateCall(iff.Cond); ok && pg.Name() == "MaxInputLength" {
+				if arg, ok := isLenOf(n); ok && rootParam(arg) == input {
+					return &guardInfo{cmp: pc, errBlk: b.Succs[0], okBlk: b.Succs[1]}
+				}
+			}
 			continue
 		}
 		var lenSide ssa.Value
@@ -137,8 +194,12 @@ func (c *Ctx) findGuard(fn *ssa.Function, input *ssa.Parameter) *guardInfo {
 		if g.Name() != "MaxInputLength" {
 			continue
 		}
-		arg, ok := isLenOf(lenSide)
-		if !ok || rootParam(arg) != input {
+		if isIntParam(input) {
+			// the parameter is the length itself (a guard helper handed len(input))
+			if stripConv(lenSide) != ssa.Value(input) {
+				continue
+			}
+		} else if arg, ok := isLenOf(lenSide); !ok || rootParam(arg) != input {
 			continue
 		}
 		gi := &guardInfo{cmp: cmp}
@@ -306,7 +367,11 @@ func (c *Ctx) RuleLimitFirst(fn *ssa.Function, inputIdx int, sentinel *ssa.Globa
 					continue
 				}
 				for ai, a := range call.Call.Args {
-					if rootParam(a) == input && ai < len(callee.Params) {
+					carries := rootParam(a) == input
+					if la, isLen := isLenOf(a); isLen && rootParam(la) == input && !isIntParam(input) {
+						carries = true // the helper is handed the length
+					}
+					if carries && ai < len(callee.Params) {
 						if c.findGuard(callee, callee.Params[ai]) != nil || c.delegatesGuard(callee, ai, 0) {
 							// all work in fn must be dominated by the block after the error test of this call
 							okBlk := c.errTestContinuation(call)
@@ -584,7 +649,7 @@ func (c *Ctx) checkTooLongEdge(fn *ssa.Function, gi *guardInfo, input *ssa.Param
 			if u, ok := (*op).(*ssa.UnOp); ok && u.X == sentinel {
 				usesSentinel = true
 			}
-			if p := rootParam(*op); p == input {
+			if p := rootParam(*op); p == input && !isIntParam(input) {
 				if _, isLen := in.(*ssa.Call); isLen {
 					if bi, ok := in.(*ssa.Call).Call.Value.(*ssa.Builtin); ok && bi.Name() == "len" {
 						continue
@@ -716,7 +781,7 @@ func (c *Ctx) RuleNoPanicSites(fns map[*ssa.Function]bool, exceptions map[string
 						c.add("discharged", "C18.T1", fn, x.Pos(), "listed exception: "+why)
 						continue
 					}
-					if why, ok := exceptions["json-object-key:"+types.TypeString(x.AssertedType, nil)]; ok && isJSONObjectKey(fn, x) {
+					if why, ok := exceptions["json-object-key:"+types.TypeString(x.AssertedType, nil)]; ok && (isJSONObjectKey(fn, x) || c.keyReaderHelper(fn, x)) {
 						c.add("discharged", "C18.T1", fn, x.Pos(), "listed exception: "+why)
 						continue
 					}
@@ -967,7 +1032,8 @@ func (c *Ctx) RuleCounterSlack(fn *ssa.Function, limitVar string) {
 	}
 	head := counter.Block()
 	// classify instructions
-	isRead := func(in ssa.Instruction) bool {
+	var isRead func(in ssa.Instruction) bool
+	isRead = func(in ssa.Instruction) bool {
 		call, ok := in.(*ssa.Call)
 		if !ok || !call.Call.IsInvoke() || call.Call.Method.Name() != "Token" {
 			return false
@@ -984,6 +1050,35 @@ func (c *Ctx) RuleCounterSlack(fn *ssa.Function, limitVar string) {
 		}
 		return false
 	}
+	// … or a helper of the module that makes exactly that read (`key, err := decodeKey(d)`)
+	isReadTop := isRead
+	isRead = func(in ssa.Instruction) bool {
+		if isReadTop(in) {
+			return true
+		}
+		call, ok := in.(*ssa.Call)
+		if !ok || call.Call.IsInvoke() {
+			return false
+		}
+		callee := c.StaticCallee(&call.Call)
+		if callee == nil || !inRepo(callee) {
+			return false
+		}
+		n := 0
+		for _, hb := range origin(callee).Blocks {
+			for _, hin := range hb.Instrs {
+				if isReadTop(hin) {
+					n++
+				}
+				if hc, ok := hin.(*ssa.Call); ok && !hc.Call.IsInvoke() && len(hb.Instrs) > 0 {
+					if g := c.StaticCallee(&hc.Call); g != nil && inRepo(g) && reachFrom(hb)[hb] {
+						return false // a loop of calls: not a single read
+					}
+				}
+			}
+		}
+		return n == 1
+	}
 	// limit check at block b: returns slack (0 for i>Max fail, -1 for i>=Max fail) and the pass successor
 	limitCheck := func(b *ssa.BasicBlock) (slack int, pass *ssa.BasicBlock, ok bool) {
 		iff, isIf := b.Instrs[len(b.Instrs)-1].(*ssa.If)
@@ -993,6 +1088,24 @@ func (c *Ctx) RuleCounterSlack(fn *ssa.Function, limitVar string) {
 		bo, isB := iff.Cond.(*ssa.BinOp)
 		if !isB {
 			return 0, nil, false
+		}
+		// the check in a helper of the module: `if err := checkKeys(i); err != nil { return … }`
+		if (bo.Op == token.NEQ || bo.Op == token.EQL) && isNilConst(bo.Y) {
+			if call, isCall := bo.X.(*ssa.Call); isCall {
+				if callee := c.StaticCallee(&call.Call); callee != nil && inRepo(callee) {
+					for ai, a := range call.Call.Args {
+						if a != ssa.Value(counter) {
+							continue
+						}
+						if sl, ok := c.limitHelperSlack(origin(callee), ai, limitVar); ok {
+							if bo.Op == token.NEQ {
+								return sl, b.Succs[1], true
+							}
+							return sl, b.Succs[0], true
+						}
+					}
+				}
+			}
 		}
 		// normalise to `counter OP Max`
 		op := bo.Op
@@ -1102,6 +1215,67 @@ func (c *Ctx) RuleCounterSlack(fn *ssa.Function, limitVar string) {
 	if len(exits) == 0 {
 		c.add("discharged", "C12.count", fn, head.Instrs[0].Pos(), "every exit of the key loop is covered by a passed limit check")
 	}
+}
+
+// limitHelperSlack: h(…, n, …) error compares its parameter n with the limit variable, returns a non-nil error on
+// the failing side and nil everywhere else: the slack of that comparison (0 for `n > Max` fails, −1 for `n >= Max`).
+func (c *Ctx) limitHelperSlack(h *ssa.Function, pi int, limitVar string) (int, bool) {
+	res := h.Signature.Results()
+	if pi >= len(h.Params) || res.Len() != 1 || !isErrorType(res.At(0).Type()) {
+		return 0, false
+	}
+	for _, b := range h.Blocks {
+		iff, ok := b.Instrs[len(b.Instrs)-1].(*ssa.If)
+		if !ok {
+			continue
+		}
+		bo := condCmp(iff.Cond)
+		if bo == nil {
+			continue
+		}
+		op := bo.Op
+		var g *ssa.Global
+		switch {
+		case bo.X == ssa.Value(h.Params[pi]):
+			g = globalLoad(bo.Y)
+		case bo.Y == ssa.Value(h.Params[pi]):
+			g = globalLoad(bo.X)
+			op = flip(op)
+		}
+		if g == nil || g.Name() != limitVar {
+			continue
+		}
+		slack, fail, pass := 0, b.Succs[0], b.Succs[1]
+		switch op {
+		case token.GTR:
+		case token.GEQ:
+			slack = -1
+		case token.LEQ:
+			fail, pass = pass, fail
+		case token.LSS:
+			slack, fail, pass = -1, pass, fail
+		default:
+			return 0, false
+		}
+		_ = pass
+		if !leadsOnlyToErrors(fail) {
+			return 0, false
+		}
+		// every other return is nil
+		failSet := reachFrom(fail)
+		failSet[fail] = true
+		for _, rb := range h.Blocks {
+			ret, ok := rb.Instrs[len(rb.Instrs)-1].(*ssa.Return)
+			if !ok || failSet[rb] {
+				continue
+			}
+			if !isNilConst(ret.Results[0]) {
+				return 0, false
+			}
+		}
+		return slack, true
+	}
+	return 0, false
 }
 
 func isErrorReturnBlock(b *ssa.BasicBlock) bool {
@@ -1277,6 +1451,9 @@ func (c *Ctx) RuleSentinelOnlyInGuards(sentinel *ssa.Global, fns []*ssa.Function
 			}
 			cmp := condCmp(iff.Cond)
 			if cmp == nil {
+				if _, _, pg, ok := c.limitPredicateCall(iff.Cond); ok && pg.Name() == "MaxInputLength" && pg.Pkg == sentinel.Pkg {
+					errBlks = append(errBlks, b.Succs[0])
+				}
 				continue
 			}
 			gx, gy := globalLoad(cmp.X), globalLoad(cmp.Y)
@@ -1405,6 +1582,71 @@ func isJSONObjectKey(fn *ssa.Function, ta *ssa.TypeAssert) bool {
 	if !isTok {
 		return false
 	}
+	return callsMore(fn)
+}
+
+// keyReaderHelper: the assertion sits in a helper that reads one token, and every function of the module that calls
+// the helper does so right behind a More() that said a member follows (the key-reading step of the member loop,
+// extracted).
+func (c *Ctx) keyReaderHelper(fn *ssa.Function, ta *ssa.TypeAssert) bool {
+	ex, ok := ta.X.(*ssa.Extract)
+	if !ok || ex.Index != 0 {
+		return false
+	}
+	call, ok := ex.Tuple.(*ssa.Call)
+	if !ok || !(call.Call.IsInvoke() && call.Call.Method.Name() == "Token") {
+		return false
+	}
+	callers := 0
+	for g := range c.allFuncs {
+		if !inRepo(g) {
+			continue
+		}
+		for _, b := range g.Blocks {
+			for _, in := range b.Instrs {
+				cc, ok := in.(*ssa.Call)
+				if !ok {
+					continue
+				}
+				if h := c.StaticCallee(&cc.Call); h == nil || origin(h) != origin(fn) {
+					continue
+				}
+				callers++
+				// a More() call whose true edge dominates the call
+				dominated := false
+				for _, mb := range g.Blocks {
+					iff, ok := mb.Instrs[len(mb.Instrs)-1].(*ssa.If)
+					if !ok {
+						continue
+					}
+					cond := iff.Cond
+					neg := false
+					if u, ok := cond.(*ssa.UnOp); ok && u.Op == token.NOT {
+						cond, neg = u.X, true
+					}
+					mc, ok := cond.(*ssa.Call)
+					if !ok || !(mc.Call.IsInvoke() && mc.Call.Method.Name() == "More") {
+						continue
+					}
+					yes := mb.Succs[0]
+					if neg {
+						yes = mb.Succs[1]
+					}
+					if len(yes.Preds) == 1 && (yes == b || yes.Dominates(b)) {
+						dominated = true
+					}
+				}
+				if !dominated {
+					return false
+				}
+			}
+		}
+	}
+	return callers > 0
+}
+
+// callsMore: fn asks the decoder whether another member follows (More): the token read next is then a key.
+func callsMore(fn *ssa.Function) bool {
 	for _, b := range fn.Blocks {
 		for _, in := range b.Instrs {
 			if c2, ok := in.(*ssa.Call); ok {
